@@ -237,7 +237,7 @@ var histPlans = map[string]*histPlan{
 		rule: "one evaluation = one seeded history (8-45 steps over a pool of reused, aliasable Point/Scalar/Element slots, >= 40% scalar-multiplication steps, per-run swarm configuration); non-trivial = at least one scalar-multiplication step whose result was compared with the big.Int reference sum; distinct = distinct value-level event-log hash of the whole run"},
 	"C05": {level: "exploration", quickRuns: 16000, thorRuns: 2000000, chunk: 100, quickBudget: 60 * time.Second, thorBudget: 20 * time.Minute,
 		builds:   []string{"default"},
-		required: []string{"oracle/C05", "probe/C05/accepted_noncanonical_input", "probe/C05/small_order_axis_point"},
+		required: []string{"oracle/C05", "probe/C05/small_order_axis_point"},
 		rule:     "one evaluation = one seeded history of point operations, imports with scaled coordinates and decodes (incl. non-canonical encodings); after every step every changed (30% of runs: every) initialised point slot is encoded and compared with the canonical encoding computed from its own raw coordinates, then decoded again; non-trivial = at least one slot encoding checked; distinct = distinct value-level event-log hash"},
 	"C09": {level: "exploration", quickRuns: 40000, thorRuns: 4000000, chunk: 1000, quickBudget: 45 * time.Second, thorBudget: 15 * time.Minute,
 		builds:   []string{"default", "purego"},
@@ -528,6 +528,7 @@ func checkHist(ca *checkArgs) int {
 	fmt.Printf("built %d simulator variant(s) from /repo in %.1fs\n", len(bins), time.Since(start).Seconds())
 	total := &batch{stats: &stats{C: map[string]int64{}}, hashes: map[string]bool{}, known: map[string]int{}}
 	perBuild := map[string]int{}
+	var problems, unreachedPerBuild []string
 	deadline := time.Now().Add(budget)
 	for i, bname := range plan.builds {
 		// split the remaining budget evenly over the remaining builds
@@ -535,7 +536,15 @@ func checkHist(ca *checkArgs) int {
 		dl := time.Now().Add(remaining / time.Duration(len(plan.builds)-i))
 		b := runBatch(bins[bname], ca.id, ca.seed, n, plan.chunk, ca.workers, dl, nil, 3, false)
 		if b.workerErr != "" {
-			inconclusive("%s", b.workerErr)
+			problems = append(problems, b.workerErr)
+		}
+		if b.runs < 20 && b.workerErr == "" && len(b.violations) == 0 {
+			problems = append(problems, fmt.Sprintf("only %d runs completed under build %s within the budget", b.runs, bname))
+		}
+		for _, k := range plan.required {
+			if b.stats.C[k] == 0 && len(b.violations) == 0 {
+				unreachedPerBuild = append(unreachedPerBuild, k+" ("+bname+" build)")
+			}
 		}
 		perBuild[bname] = b.runs
 		total.stats.merge(b.stats)
@@ -583,18 +592,20 @@ func checkHist(ca *checkArgs) int {
 			seen[v.Violation.Key] = true
 			bname := violBuild[v]
 			path := reportViolation(ca.id, bins[bname], bname, v)
+			if path == "" {
+				problems = append(problems, "a violation was observed but does not replay from its trace")
+				continue
+			}
 			replayFiles = append(replayFiles, path)
-		}
-		code = 1
-	}
-	// reach requirements
-	var unreached []string
-	for _, k := range plan.required {
-		if total.stats.C[k] == 0 {
-			unreached = append(unreached, k)
+			code = 1
 		}
 	}
+	// reach requirements (per build)
+	unreached := unreachedPerBuild
 	writeEvidence(ca, plan, total, perBuild, replayFiles, unreached)
+	if code == 0 && len(problems) > 0 {
+		inconclusive("%s", strings.Join(problems, "; "))
+	}
 	if code == 0 && len(unreached) > 0 {
 		inconclusive("workload did not reach: %v", unreached)
 	}
@@ -638,8 +649,8 @@ func reportViolation(id, bin, bname string, v *runResult) string {
 		// minimised trace does not reproduce from its file: fall back to the original
 		write(orig)
 		if rv := replayFile(bin, path); rv == nil || rv.Prop != v.Violation.Prop {
-			fmt.Printf("non-reproducing failure kept at %s: %s\n", path, v.Violation.Detail)
-			inconclusive("a violation of %s was observed but does not replay from its trace (harness defect)", id)
+			fmt.Printf("a violation of %s was observed but does not replay from its trace (kept at %s): %s\n", id, path, v.Violation.Detail)
+			return ""
 		}
 	}
 	var mt struct {
@@ -1049,8 +1060,11 @@ func cmdReplay(args []string) {
 		bin := build("edsim_replay", bargs...)
 		cmd := exec.Command(bin, "replay", "-trace", path, "-known", filepath.Join(verifDir, "known_findings.txt"), "-transcript")
 		cmd.Env = append(os.Environ(), "GOMAXPROCS=1")
-		out, _ := cmd.Output()
+		out, rerr := cmd.Output()
 		fmt.Print(string(out))
+		if ee, ok := rerr.(*exec.ExitError); rerr != nil && (!ok || ee.ExitCode() != 1) {
+			inconclusive("the simulator could not replay %s on this tree (see above)", path)
+		}
 		if v := replayFile(bin, path); v != nil {
 			fmt.Printf("reproduced: %s\n", v.Detail)
 			fmt.Printf("VIOLATION property=%s replay=%s\n", v.Prop, path)
